@@ -13,6 +13,8 @@ Print Assumptions C19_integer_roundtrip.
 (* Integer(const char * ) of operator std::string is the identity *)
 Theorem C19_integer_string_roundtrip : Integer_string_roundtrip_stmt.   Proof. exact integer_string_roundtrip. Qed.
 Print Assumptions C19_integer_string_roundtrip.
+Theorem C19_absOutput : AbsOutput_stmt.                                 Proof. exact abs_output. Qed.
+Print Assumptions C19_absOutput.
 (* any number of integers written with a white-space separator are read back in order *)
 Theorem C19_integer_sequence : Integer_sequence_stmt.                   Proof. exact integer_sequence. Qed.
 Print Assumptions C19_integer_sequence.
@@ -32,6 +34,8 @@ Theorem C19_modular_roundtrip : Modular_roundtrip_stmt.                 Proof. e
 Print Assumptions C19_modular_roundtrip.
 Theorem C19_balanced_roundtrip : Balanced_roundtrip_stmt.               Proof. exact balanced_roundtrip. Qed.
 Print Assumptions C19_balanced_roundtrip.
+Theorem C19_modular_word_roundtrip : Modular_word_roundtrip_stmt.       Proof. exact modular_word_roundtrip. Qed.
+Print Assumptions C19_modular_word_roundtrip.
 (* RecInt decimal display, every K and every value of the type *)
 Theorem C19_ruint_dec_roundtrip : Ruint_dec_roundtrip_stmt.             Proof. exact ruint_dec_roundtrip. Qed.
 Print Assumptions C19_ruint_dec_roundtrip.
